@@ -266,9 +266,10 @@ Font(cts) ==
           \o <<Marker("size"), NormLP(cts[si]), Marker("line-height")>>
           \o (IF hasLh /\ ~IsKwIn(cts[si + 2], {"normal"}) THEN <<cts[si + 2]>> ELSE <<>>)
           \o <<Marker("family")>> \o FontFamily(SubSeq(cts, fi, n))
+\* normal = 400 and bold = 700 wherever an absolute weight stands (CSS Fonts 3 section 3.2; the
+\* @font-face descriptor takes one or two of them)
 FontWeight(cts) ==
-  IF Len(cts) = 1 /\ IsKwIn(cts[1], {"normal"}) THEN <<N400>>
-  ELSE IF Len(cts) = 1 /\ IsKwIn(cts[1], {"bold"}) THEN <<N700>> ELSE cts
+  [i \in 1..Len(cts) |-> IF IsKwIn(cts[i], {"normal"}) THEN N400 ELSE IF IsKwIn(cts[i], {"bold"}) THEN N700 ELSE cts[i]]
 
 (* ---- unicode-range: the set of code points (CSS Fonts 3 section 4.5), as the sorted list of
         maximal intervals <<lo1, hi1, lo2, hi2, ...>> ---- *)
